@@ -53,6 +53,11 @@ CLAIMED = {
    text="Seeded search over (target rows X, options) x histories of earlier lives of the same instance; the bytes written after Reset must equal those of a fresh instance, of a repeat in the warm process and of another goroutine. The digests of the first runs of each batch are recomputed in other processes by the purego build and by the accelerated build with AVX-512 / AVX2 disabled and must match.",
    note="Map-typed values and encryption are not generated (excepted by the property). Every life and the reference use identical options. CPU variants limited to what this machine can emulate via GODEBUG.",
    ref="DESIGN.md §4 C17"),
+ "C20": dict(level="exploration", engine="history + E3 scheduler (+race build)",
+   technique="deterministic simulation: seeded Encode/Decode histories incl. failing decodes on shared codec values over a deterministic LIFO poisoning pool; concurrent configuration under a seeded one-at-a-time goroutine scheduler (synctest bubble, yield at every pool Get/Put) with the race detector kept effective; byte-slice reference model",
+   text="Seeded search over codecs, inputs, destination-buffer shapes and histories (valid and failing decodes); Decode(Encode(x)) must equal x at every point and earlier results must not change. A third of the runs split the history over 2-4 tasks on the same codec value under the scheduler; a batch also runs under the race detector with scheduler hand-offs hidden from it.",
+   note="Corrupted inputs are not fed to LZ4 (its decode loop never terminates on an undecodable block). Third-party codec internals and their own sync.Pools run real; event-log hashes of concurrent runs are not compared for that reason (violation class still is).",
+   ref="DESIGN.md §4 C20"),
 }
 
 NOT_BUILT_YET = {}
